@@ -846,7 +846,7 @@ func (e *Engine) evalCall(st *State, env *cenv, x *CExpr) (Val, error) {
 			return Val{}, err
 		}
 		if v.K == KSlice {
-			return Val{K: KStr, T: "(str_of " + st.heap("Hi") + " " + v.Base + " " + v.Off + " " + v.Len + ")", Ty: types.Typ[types.String]}, nil
+			return Val{K: KStr, T: "(str_of " + st.heap("Hy") + " " + v.Base + " " + v.Off + " " + v.Len + ")", Ty: types.Typ[types.String]}, nil
 		}
 		if v.K == KStr {
 			return v, nil
@@ -1216,8 +1216,8 @@ func (e *Engine) evalDesignator(st *State, env *cenv, x *CExpr) ([]desig, error)
 			}
 			return
 		}
-		leafPaths(addr, t, func(a string, k Kind, _ types.Type) {
-			out = append(out, desig{heap: heapOfKind(k), single: a})
+		leafPaths(addr, t, func(a string, k Kind, lt types.Type) {
+			out = append(out, desig{heap: heapFor(k, lt), single: a})
 		})
 	}
 	if x.Op == "call" && x.Args[0].Op == "id" {
@@ -1236,7 +1236,7 @@ func (e *Engine) evalDesignator(st *State, env *cenv, x *CExpr) ([]desig, error)
 			b, o, n := v.Base, v.Off, v.Len
 			switch k {
 			case KInt, KBool, KAddr, KStr, KIface, KReal, KFunc:
-				out = append(out, desig{heap: heapOfKind(k), pred: func(a string) string { return inSliceRange(a, b, o, n) }})
+				out = append(out, desig{heap: heapFor(k, et), pred: func(a string) string { return inSliceRange(a, b, o, n) }})
 			default:
 				for _, hn := range leafHeapsOf(et) {
 					out = append(out, desig{heap: hn, pred: func(a string) string { return "(= (root " + a + ") (root " + b + "))" }})
@@ -1329,7 +1329,7 @@ func leafHeapsOf(t types.Type) []string {
 		case KArr:
 			walk(t.Underlying().(*types.Array).Elem())
 		default:
-			h := heapOfKind(k)
+			h := heapFor(k, t)
 			if !seen[h] {
 				seen[h] = true
 				out = append(out, h)
@@ -1490,8 +1490,8 @@ func (e *Engine) checkAssigns(st *State, a Val, t types.Type, pos token.Pos) {
 		return
 	}
 	var cs []string
-	leafPaths(a.T, t, func(addr string, k Kind, _ types.Type) {
-		cs = append(cs, e.allowedPred(ac, heapOfKind(k), addr))
+	leafPaths(a.T, t, func(addr string, k Kind, lt types.Type) {
+		cs = append(cs, e.allowedPred(ac, heapFor(k, lt), addr))
 	})
 	st.addCheck(&Check{Name: fmt.Sprintf("%s.assigns@%s", e.curFunc, shortPos(posStr(e, pos))), Kind: "assigns", Goal: sAnd(cs...), Pos: posStr(e, pos), Func: e.curFunc, Bounded: st.boundedNow()})
 }
@@ -1502,7 +1502,7 @@ func (e *Engine) checkAssignsRange(st *State, dst Val, pos token.Pos) {
 		return
 	}
 	q := st.declare("fa", "Int")
-	goal := sImp(sAnd(sLe("0", q), sLt(q, dst.Len)), e.allowedPred(ac, "Hi", elemAt(dst.Base, dst.Off, q)))
+	goal := sImp(sAnd(sLe("0", q), sLt(q, dst.Len)), e.allowedPred(ac, "Hy", elemAt(dst.Base, dst.Off, q)))
 	st.addCheck(&Check{Name: fmt.Sprintf("%s.assigns@%s", e.curFunc, shortPos(posStr(e, pos))), Kind: "assigns", Goal: goal, Pos: posStr(e, pos), Func: e.curFunc})
 }
 
